@@ -73,8 +73,10 @@ let () =
         match String.split_on_char ' ' line with
         | [fam; cfg; op; args; res] ->
           (try
+            (* a result starting with '!' is an exception / signal: the model sees an empty result *)
+            let resl = if String.length res > 0 && res.[0] = '!' then [] else split_list z_of_hex res in
             let v = judge (z_of_dec fam) (split_list z_of_dec cfg) (z_of_dec op)
-                      (split_list z_of_hex args) (split_list z_of_hex res) in
+                      (split_list z_of_hex args) resl in
             incr n;
             let key = fam ^ " " ^ cfg ^ " " ^ op in
             let (c, m) = try Hashtbl.find per key with Not_found -> (0, 0) in
